@@ -6,8 +6,9 @@ form compared with the Lean model (`lean/RichModel/Model/Live.lean`).  Operation
     ("S",) start          ("X",) stop           ("B",) console.print() with no arguments
     ("BL",) console.log() with no arguments     ("R",) refresh
     ("P", lines, how)     user output of `lines` (each newline-terminated); how = "seg" (a renderable that
-                          yields the lines), "str" (console.print of a str), "log" (console.log), "py"
-                          (one sys.stdout.write of complete lines through the redirected sys.stdout)
+                          yields the lines), "str" (console.print of a str), "log" (console.log), "py" / "pye"
+                          (one sys.stdout / sys.stderr .write of complete lines through the FileProxy), "py1" + "py2"
+                          (a write ending inside a line, then the rest of that line)
     ("U", lines, refresh) Live.update(renderable that yields `lines`) / Status.update(status="\\n".join(lines))
     ("A", desc, visible)  Progress.add_task     ("V", id, n) Progress.advance
     ("H", id, visible, refresh) Progress.update(id, visible=…, refresh=…)      ("D", id) Progress.remove_task
@@ -28,6 +29,9 @@ from core import enc_bool, enc_str, enc_str_list
 
 KINDS = {"live": 0, "progress": 1, "status": 2}
 OVERFLOWS = {"crop": 0, "ellipsis": 1, "visible": 2}
+
+
+PENDING = "tail"
 
 
 class Boom(Exception):
@@ -144,6 +148,14 @@ def _emit_user(console, how, lines, style):
     elif how == "py":
         # one write() of complete lines through the FileProxy installed as sys.stdout -> one console.print
         sys.stdout.write("\n".join(lines) + "\n")
+    elif how == "pye":
+        sys.stderr.write("\n".join(lines) + "\n")
+    elif how == "py1":
+        # a write that ends in the middle of a line: the complete lines are printed, PENDING is buffered
+        sys.stdout.write("\n".join(lines) + "\n" + PENDING)
+    elif how == "py2":
+        # ... and the end of that line (lines == [PENDING])
+        sys.stdout.write("\n")
     else:
         raise ValueError(how)
 
@@ -184,7 +196,7 @@ class Cfg:
         self.color = color
         self.init = list(init)  # initial renderable lines (Live) / initial status lines (Status)
 
-    def enc(self, bare_bypass, start_guard):
+    def enc(self, bare_bypass, start_guard, reset_shape):
         return ",".join(
             str(x)
             for x in [
@@ -197,6 +209,7 @@ class Cfg:
                 int(bare_bypass),
                 int(start_guard),
                 OVERFLOWS[self.overflow],
+                int(reset_shape),
             ]
         )
 
@@ -303,6 +316,7 @@ class Session:
                 enc_bool(lv._restore_stderr is not None),
                 "-" if shape is None else f"{shape[0]}x{shape[1]}",
                 str(int(self.obj._task_index)) if self.cfg.kind == "progress" else "0",
+                str(OVERFLOWS["visible" if self.cfg.kind == "progress" else lv.vertical_overflow]),
             ]
         )
 
